@@ -6,11 +6,15 @@
 mod common;
 mod gen;
 mod sup;
+mod c04;
 mod c06;
+mod corpus;
 mod c07;
 mod uref;
 mod c08;
 mod c11;
+mod c12;
+mod geo;
 mod ind;
 mod c13;
 mod c14;
@@ -46,12 +50,14 @@ fn main() {
         _ => Tier::Quick,
     };
     let checks: Vec<(&str, fn(&Ctx) -> i32)> = vec![
+        ("C04", c04::run),
         ("C06", c06::run),
         ("C07", c07::run),
         ("C08", c08::run08),
         ("C09", c08::run09),
         ("C10", c08::run10),
         ("C11", c08::run11),
+        ("C12", c12::run),
         ("C13", c13::run),
         ("C14", c14::run),
         ("C15", c15::run),
